@@ -263,7 +263,7 @@ fn eval(a: &[String]) -> String {
       // and compare with the library on every day of a set of years.  kinds: 0 Nines, 1 pentads, 2 Dog days, 3 Plum rains
       let dn = |d: &SolarDay| (d.get_julian_day().get_day() + 0.5) as i64;
       let tday = |y: isize, i: isize| SolarTerm::from_index(y, i).get_julian_day().get_solar_day();
-      let years: Vec<isize> = vec![1700, 1995, 1997, 2000, 2002, 2011, 2012, 2021, 2023, 2024, 2040, 2042, 2500, 3000];
+      let years: Vec<isize> = if v[0] == 0 { vec![1200, 1500, 1700, 1995, 2000, 2023, 2024, 3000, 9000] } else { vec![1700, 1995, 1997, 2000, 2002, 2011, 2012, 2021, 2023, 2024, 2040, 2042, 2500, 3000] };
       let mut out = "NONE".to_string();
       'scan: for y in years {
         let mut day = SolarDay::from_ymd(y, 1, 1);
@@ -388,6 +388,35 @@ fn eval(a: &[String]) -> String {
             for n in [-8isize, -5, -1, 1, 4, 8] { let g = w.next(n).get_first_day().get_solar_day(); if g.subtract(f) != 7 * n {
               out = format!("LunarWeek({}, {}, {}, start {}).next({}) moves the first day by {} days", mo.get_year(), mo.get_month_with_leap(), idx, start, n, g.subtract(f)); break 'l; } } } }
           mo = mo.next(1); }
+      }
+      out
+    }
+    "child_dir_scan" => {
+      // births at several clock times on every day of 2024 (Jie days included), both genders: forward flag and the counts implied by the governing Jie
+      use tyme4rs::tyme::eightchar::ChildLimit;
+      use tyme4rs::tyme::enums::Gender;
+      let mut out = "NONE".to_string();
+      let mut day = SolarDay::from_ymd(2024, 1, 1);
+      'scan: for _ in 0..366 {
+        for (h, mi, s) in [(0usize, 0usize, 0usize), (12, 9, 52), (23, 59, 59)] {
+          let b = SolarTime::from_ymd_hms(day.get_year(), day.get_month(), day.get_day(), h, mi, s);
+          let yp = b.get_sixty_cycle_hour().get_year().get_heaven_stem().get_index();
+          let mut term = b.get_term();
+          if term.get_index() % 2 == 0 { term = term.next(-1); }
+          for (g, man) in [(Gender::MAN, true), (Gender::WOMAN, false)] {
+            let fwd = (yp % 2 == 0) == man;
+            let gov = if fwd { term.next(2) } else { term.clone() };
+            let secs = gov.get_julian_day().get_solar_time().subtract(b).abs() as usize;
+            let exp = (secs / 259200, secs % 259200 / 21600, secs % 21600 / 720, secs % 720 / 30, secs % 30 * 2);
+            let c = ChildLimit::from_solar_time(b, g);
+            let got = (c.get_year_count(), c.get_month_count(), c.get_day_count(), c.get_hour_count(), c.get_minute_count());
+            if c.is_forward() != fwd || got != exp {
+              out = format!("{}-{}-{} {}:{}:{} man={} forward {} (expected {}) counts {:?} (expected {:?})", day.get_year(), day.get_month(), day.get_day(), h, mi, s, man, c.is_forward(), fwd, got, exp);
+              break 'scan;
+            }
+          }
+        }
+        day = day.next(1);
       }
       out
     }
